@@ -24,6 +24,7 @@ const (
 	clFull     = 'B' // a matcher keeps asking for more -> matching buffer full
 	clTLS      = 'T' // TLS-terminated by a non-terminal route, then falls through
 	clTwoStep  = 'P' // matched by a non-terminal route (consumes one byte), then by a terminal route
+	clSub      = 'S' // matched by a route whose subroute falls through, then falls through the rest
 	clTee      = 'W' // matched by a non-terminal route whose handler wraps the connection (tee), then falls through
 )
 
@@ -45,6 +46,7 @@ type c13Sample struct {
 	Leftover   []string  `json:"goroutines_left"`
 	Listeners  int       `json:"listeners_wrapped_by_the_wrapper"`
 	DoubleClose bool     `json:"consumer_closes_twice"`
+	Wrapper    string    `json:"wrapping_handler_before_handover,omitempty"`
 }
 
 func init() {
@@ -66,6 +68,8 @@ func runC13(t *testing.T, e *worlds.Env, tier string) (bool, any) {
 		sni    string
 		late   time.Duration
 		ln     int // index of the listener it connected to
+		readErr      error // the consumer's read of the accepted connection failed (not EOF)
+		readErrAfter int
 	}
 	var conns []*cstate
 	byAddr := map[string]*cstate{}
@@ -137,7 +141,19 @@ func runC13(t *testing.T, e *worlds.Env, tier string) (bool, any) {
 		// a wrapping handler in front of the hand-over: the consumer reads through the wrapper.
 		// As the first route, the routes after it pull the prefetched bytes into the wrapper; as the
 		// last one, the connection being teed still holds them (in its pooled buffer) at the hand-over
-		teeRoute := layer4.VerifNewRoute([]layer4.MatcherSet{{first(clTee, teeNeed, 1)}}, []layer4.NextHandler{b.Handler(&teeMark, sig), b.Handler(&teeSpec, sig)})
+		wrapHandlers := []layer4.NextHandler{b.Handler(&teeMark, sig), b.Handler(&teeSpec, sig)}
+		if tp.Prob(1, 3, "wrap-throttle") {
+			// a rate limiter instead: the consumer's reads go through its wrapper (and wait on the
+			// connection's context) long after layer4 has handed the connection over
+			thr := HSpec{Kind: "throttle", Name: "thrW", Rate: 5000000, Burst: 4096}
+			wrapHandlers = []layer4.NextHandler{b.Handler(&thr, sig)}
+			sample.Wrapper = "throttle"
+		}
+		teeRoute := layer4.VerifNewRoute([]layer4.MatcherSet{{first(clTee, teeNeed, 1)}}, wrapHandlers)
+		// a subroute whose inner route is not terminal: the connection falls through it, and on
+		// through the rest of the list, to the wrapped listener
+		subS := HSpec{Kind: "subroute", Name: "subS", Sub: &RLSpec{Routes: []RSpec{{Handlers: []HSpec{{Kind: "mark", Name: "inS"}}}}}}
+		subRoute := layer4.VerifNewRoute([]layer4.MatcherSet{{first(clSub, 1, 1)}}, []layer4.NextHandler{b.Handler(&subS, sig)})
 		teeLast := tp.Prob(1, 2, "tee-last")
 		routes := layer4.RouteList{
 			layer4.VerifNewRoute([]layer4.MatcherSet{{first(clNever, 1<<30, 2)}}, []layer4.NextHandler{b.Handler(&term, sig)}),
@@ -158,6 +174,7 @@ func runC13(t *testing.T, e *worlds.Env, tier string) (bool, any) {
 		if teeLast {
 			routes = append(routes, teeRoute)
 		}
+		routes = append(layer4.RouteList{subRoute}, routes...)
 		nln := 1
 		if tp.Prob(1, 4, "two-listeners") {
 			nln = 2
@@ -178,7 +195,7 @@ func runC13(t *testing.T, e *worlds.Env, tier string) (bool, any) {
 		<-ready
 		// clients
 		n := 1 + tp.Choose(7, "nconn")
-		classes := []byte{clFall, clFall, clTerminal, clNever, clError, clFull, clTLS, clTwoStep, clTee}
+		classes := []byte{clFall, clFall, clTerminal, clNever, clError, clFull, clTLS, clTwoStep, clTee, clSub}
 		for i := 1; i <= n; i++ {
 			cls := classes[tp.Choose(len(classes), "class")]
 			plan := &worlds.ClientPlan{ID: i, Addr: worlds.ClientAddr(i), End: worlds.EndHalfClose}
@@ -188,7 +205,7 @@ func runC13(t *testing.T, e *worlds.Env, tier string) (bool, any) {
 			if minLen := max(needFall, teeNeed+10); cls == clTee && ln2 < minLen {
 				ln2 = minLen + tp.Choose(50, "len-extra")
 			}
-			if minLen := max(needFall, 5); (cls == clFall || cls == clTLS) && ln2 < minLen {
+			if minLen := max(needFall, 5); (cls == clFall || cls == clTLS || cls == clSub) && ln2 < minLen {
 				// enough bytes for every route to decide (the tls matcher needs a 5-byte record header)
 				ln2 = minLen + tp.Choose(50, "len-extra")
 			}
@@ -284,7 +301,12 @@ func runC13(t *testing.T, e *worlds.Env, tier string) (bool, any) {
 					}
 					e.S.Go(fmt.Sprintf("cons%d.r%d", li+1, k), func() {
 						rec := &worlds.Recorder{E: e, Name: "accepted", Tag: "C13", Sig: sig, Late: late, MaxBuf: 2048}
-						rec.Record(c, cs.model, true)
+						st := rec.Record(c, cs.model, true)
+						if st.Err != nil && !st.EOF && !st.Bad {
+							lk()
+							cs.readErr, cs.readErrAfter = st.Err, st.Got
+							ulk()
+						}
 						_ = c.Close()
 						if doubleClose {
 							_ = c.Close() // net.Conn allows it; servers routinely do
@@ -386,7 +408,7 @@ func runC13(t *testing.T, e *worlds.Env, tier string) (bool, any) {
 				if !srvClosed {
 					e.S.Fail("C13/not-closed", "lw", "conn %d (class %c) was neither delivered nor closed", m.ID, cs.class)
 				}
-			case clFall, clTLS, clTee:
+			case clFall, clTLS, clTee, clSub:
 				if cs.accepts > 1 {
 					e.S.Fail("C13/delivered-twice", "lw", "conn %d was delivered to Accept %d times", m.ID, cs.accepts)
 				}
@@ -416,6 +438,9 @@ func runC13(t *testing.T, e *worlds.Env, tier string) (bool, any) {
 				}
 				if cs.accepts == 1 {
 					handedWithPrefetch++
+				}
+				if cs.readErr != nil && cs.client.WriteErr == nil && m.WroteAll && !m.Aborted {
+					e.S.Fail("C13/read-error", "lw", "conn %d (class %c) was handed over, the client sent its whole stream and closed gracefully, but the consumer's read failed after %d bytes: %v", m.ID, cs.class, cs.readErrAfter, cs.readErr)
 				}
 			}
 		}
